@@ -134,6 +134,14 @@ class Normalise(ast.NodeTransformer):
 
     def visit_Compare(self, n):
         self.generic_visit(n)
+        # (a, b) == (c, d) over plain names / constants is a == c and b == d; != is a != c or b != d
+        if len(n.ops) == 1 and isinstance(n.ops[0], (ast.Eq, ast.NotEq)) and isinstance(n.left, ast.Tuple) and isinstance(n.comparators[0], ast.Tuple) \
+                and len(n.left.elts) == len(n.comparators[0].elts) >= 1 \
+                and all(isinstance(e, (ast.Name, ast.Constant)) or (isinstance(e, ast.Attribute) and isinstance(e.value, ast.Name)) for e in n.left.elts + n.comparators[0].elts):
+            parts = [self._orient(ast.copy_location(ast.Compare(left=a, ops=[type(n.ops[0])()], comparators=[b]), n)) for a, b in zip(n.left.elts, n.comparators[0].elts)]
+            if len(parts) == 1:
+                return parts[0]
+            return ast.copy_location(ast.BoolOp(op=ast.And() if isinstance(n.ops[0], ast.Eq) else ast.Or(), values=parts), n)
         return self._orient(n)
 
     def visit_Call(self, n):
